@@ -76,6 +76,9 @@ def run(ctx) -> None:
     r01_8(ctx)
     r01_9(ctx)
     r01_10(ctx)
+    from . import lockstep
+    lockstep.zip_longest_table(ctx, "R01.11")
+    ctx.floor("zip_longest_cells_decided", 100)
     ctx.floor("merge_cells", 6)
     ctx.floor("yield_sites", 18)
     ctx.floor("source_loops", 4)
@@ -593,3 +596,8 @@ def r01_4(ctx) -> None:
             ok = isinstance(inner, ast.Name)
             ctx.check(ok, "R01.4", u, it, "the sources are visited in argument order (bare container or enumerate of it)"
                       if ok else f"the sources are visited through `{norm(it)}`, not in plain argument order", node=n)
+
+
+def run_thorough(ctx) -> None:
+    from . import lockstep
+    lockstep.thorough_oracle(ctx, "R01.T")
